@@ -348,6 +348,10 @@ impl Task {
 
     pub fn set_err(&self, err: &Error) {
         *self.err.write().unwrap() = Some(err.clone());
+        // the error of the workflow task is the error of the process (like its state)
+        if self.id == TASK_ROOT_TID {
+            self.proc().set_pure_err(err);
+        }
         self.set_state(TaskState::Error);
     }
 
